@@ -20,6 +20,7 @@ Binding demonstrated during development (scratch worktree, see notes/httpw.md): 
 removing the 304 body reset in finish() are each reported as VIOLATION.
 """
 import random
+import time
 
 from harness import framework
 from harness import httpw_driver as drv
@@ -63,6 +64,16 @@ def random_program(rng):
     ops = []
     n = rng.randint(1, 9)
     total = 0
+    if rng.random() < 0.25:
+        # focus: no-body status, explicit Content-Length, data pushed out by flush
+        body = [rng.choice(b"abc") for _ in range(rng.choice([0, 1, 5]))]
+        pre = [("set_status", [rng.choice([204, 304, 304, 200])]),
+               ("set_header", [list(b"Content-Length"), list(str(len(body) + rng.choice([0, 0, 1])).encode())])]
+        rng.shuffle(pre)
+        ops = pre[:rng.choice([1, 2, 2])] + [("write", [body])] + rng.choice([[("flush", [])], [], [("flush", []), ("flush", [])]])
+        if rng.random() < 0.3:
+            ops.append(("finish", [[]]))
+        return cfg, ops, {}
 
     def chunk():
         k = rng.choice([0, 1, 2, 5, 17, 60, 200])
@@ -107,34 +118,53 @@ def random_program(rng):
 
 def run(ctx):
     # 1. model checking of the obligation machine + reader consistency
+    t0 = time.time()
     ctx.mc(FAM, "HttpWriter", "MC_HttpWriter.cfg",
            overrides=ctx.pick({}, {"Inms": '{"absent", "differ", "match", "star"}', "MaxBody": 4}),
-           required_actions=["LSetStatus", "LSetHeader", "LAddHeader", "LClearHeader", "WriteB",
+           required_actions=["LSetStatus", "LSetHeader", "LAddHeader", "AClearHeader", "WriteB",
                              "Flush", "FinishB", "End"], timeout=ctx.pick(300, 1200))
+    ctx._phase("mc", t0)
     # 2. spec -> code -> spec: every program up to L
     L = 3
+    t0 = time.time()
     paths = ctx.gen_paths(FAM, "Gen_HttpWriter", "Gen_HttpWriter.cfg",
-                          overrides=ctx.pick({"L": L}, {"L": L, "Statuses": "{204, 304, 404}", "ClVals": "{1, 3}",
-                                                        "InmVersions": '{"1.0", "1.0ka", "1.1"}'}))
+                          overrides=ctx.pick({"L": L, "Methods": '{"GET", "HEAD"}'},
+                                             {"L": L, "Statuses": "{204, 304, 404}", "ClVals": "{1, 3}",
+                                              "InmVersions": '{"1.0", "1.0ka", "1.1"}'}))
+    if ctx.quick:       # POST differs from GET only in never being ETag-checked: length 2 in the quick tier
+        paths += ctx.gen_paths(FAM, "Gen_HttpWriter", "Gen_HttpWriter.cfg", overrides={"L": 2, "Methods": '{"POST"}'})
+    # length 4 on the no-body statuses with an explicit Content-Length (204/304 x Content-Length x write x flush,
+    # ETag-substituted 304 with the handler's own Content-Length): GET x 1.1 x If-None-Match absent/match
+    paths += ctx.gen_paths(FAM, "Gen_HttpWriter", "Gen_HttpWriter.cfg",
+                           overrides={"L": 4, "Methods": '{"GET"}', "Versions": '{"1.1"}', "Inms": '{"absent", "match"}',
+                                      "Statuses": "{204, 304}", "HdrVals": "{}", "ClVals": "{1}", "ChunkIds": "{1}"})
     if not ctx.quick:
         # length 4 on the configurations where framing decisions differ most (GET x 1.0+keep-alive / 1.1)
         paths += ctx.gen_paths(FAM, "Gen_HttpWriter", "Gen_HttpWriter.cfg",
                                overrides={"L": 4, "Methods": '{"GET"}', "Versions": '{"1.0ka", "1.1"}', "Inms": '{"absent"}'},
                                timeout=1200)
+    ctx._phase("gen", t0)
     jobs = [(i + 1, extra["cfg"], drv.path_ops(path), {}) for i, (extra, path) in enumerate(paths)]
-    traces = framework.pool_map(_job, jobs)
-    ctx.validate(FAM, "Trace_HttpWriter", "Trace_HttpWriter.cfg", traces, label="s2c", sig_fn=sig_of)
+    with drv.phase(ctx, "execute"):
+        traces = framework.pool_map(_job, jobs)
+    with drv.phase(ctx, "validate"):
+        ctx.validate(FAM, "Trace_HttpWriter", "Trace_HttpWriter.cfg", traces, label="s2c", sig_fn=sig_of)
     ctx.cov["exhaustive"] = True
     # 3. code -> spec: random longer programs, arbitrary bytes, partial socket writes
-    n = ctx.pick(2500, 20000)
+    n = ctx.pick(1500, 20000)
     base = len(jobs)
     rjobs = []
     for i in range(n):
         rng = random.Random(ctx.seed * 1000003 + i)
         cfg, ops, kw = random_program(rng)
         rjobs.append((base + i + 1, cfg, ops, kw))
-    rtraces = framework.pool_map(_job, rjobs)
-    ctx.validate(FAM, "Trace_HttpWriter", "Trace_HttpWriter.cfg", rtraces, label="c2s", sig_fn=sig_of)
+    with drv.phase(ctx, "random"):
+        rtraces = framework.pool_map(_job, rjobs)
+        ctx.validate(FAM, "Trace_HttpWriter", "Trace_HttpWriter.cfg", rtraces, label="c2s", sig_fn=sig_of)
+    # 4. HEAD vs GET under the gzip output transform (Content-Length of a HEAD = length of the body a GET carries)
+    from checks import C29
+    with drv.phase(ctx, "head_vs_get"):
+        ctx.note("head_vs_get_traces", drv.head_vs_get(ctx, C29.sig_of))
     ctx.cov["rule"] = ("programs: every sequence of set_status/set_header/add_header/clear_header/write/flush/finish "
                        "up to length %d for GET/HEAD/POST x HTTP/1.0, 1.0+keep-alive, 1.1 (If-None-Match matching: GET/HEAD, quick: 1.1 only), "
                        "executed on the real server and judged by TLC (RespReader on the raw bytes); plus seeded random "
@@ -149,6 +179,9 @@ def replay(ctx, rec):
     if not t:
         print("specification-level violation; rerun ./check C02")
         return 1
+    if "ctype" in t["cfg"]:          # a HEAD-vs-GET trace under the gzip transform: judged by Trace_Gzip
+        from checks import C29
+        return C29.replay(ctx, rec)
     ops = [(e["a"], e["args"]) for e in t["ev"] if e["a"] not in ("end", "response")]
     # a program that raised stops there; re-execute exactly the recorded calls
     t2 = drv.program_trace(t["id"], t["cfg"], ops)
